@@ -45,6 +45,7 @@ enum Fault {
     TypeErrorInUnreadScopedDefinition,
     TypeErrorInPrint,
     TypeErrorInShorthandArgument,
+    TypeErrorViaTwoLets,
 }
 
 const FAULTS: &[Fault] = &[
@@ -70,6 +71,7 @@ const FAULTS: &[Fault] = &[
     Fault::TypeErrorInUnreadScopedDefinition,
     Fault::TypeErrorInPrint,
     Fault::TypeErrorInShorthandArgument,
+    Fault::TypeErrorViaTwoLets,
 ];
 
 impl Fault {
@@ -97,6 +99,7 @@ impl Fault {
             Fault::TypeErrorInUnreadScopedDefinition => "type_error_in_unread_scoped_definition",
             Fault::TypeErrorInPrint => "type_error_in_print_argument",
             Fault::TypeErrorInShorthandArgument => "type_error_in_shorthand_argument",
+            Fault::TypeErrorViaTwoLets => "type_error_via_two_lets",
         }
     }
     /// conflicts between two statements
@@ -193,6 +196,14 @@ fn fault_stmts(f: Fault, cap: Option<&str>, shorthand: Option<&str>) -> Option<V
             stmt(StmtKind::AttrNode(GExpr::var("zq_m"), vec![a("zq_a", GExpr::scoped(n(), "zq_tag"))])),
         ],
         Fault::ScopedDefinitionOnGraphNode => vec![stmt(StmtKind::Node(GVar::u("zq_n"))), stmt(StmtKind::Let(GVar::s(n(), "zq_tag"), GExpr::Int(1)))],
+        // the failing value is reached through a second variable: the failing statement is still
+        // the `let` that holds the ill-typed call, not the one that merely uses its variable
+        Fault::TypeErrorViaTwoLets => vec![
+            stmt(StmtKind::Node(GVar::u("zq_n"))),
+            stmt(StmtKind::Let(GVar::u("zq_v"), GExpr::call("not", vec![GExpr::Int(3)]))),
+            stmt(StmtKind::Let(GVar::u("zq_w"), GExpr::call("and", vec![GExpr::True, GExpr::var("zq_v")]))),
+            stmt(StmtKind::AttrNode(n(), vec![a("zq_a", GExpr::var("zq_w"))])),
+        ],
         Fault::TypeErrorViaLet => vec![stmt(StmtKind::Node(GVar::u("zq_n"))), stmt(StmtKind::Let(GVar::u("zq_v"), GExpr::call("not", vec![GExpr::Int(3)]))), stmt(StmtKind::AttrNode(n(), vec![a("zq_a", GExpr::var("zq_v"))]))],
     })
 }
@@ -206,7 +217,7 @@ fn fault_positions(f: Fault) -> (usize, Option<usize>) {
         Fault::UndefinedEdge => (2, None),
         // the `let` holds the failing value; strict fails there, lazy when the thunk is forced
         // (and reports the statement that created it)
-        Fault::TypeErrorViaLet => (1, None),
+        Fault::TypeErrorViaLet | Fault::TypeErrorViaTwoLets => (1, None),
         Fault::UndefinedScopedViaLet => (0, None),
         Fault::ScanNonString | Fault::IfNonBoolean => (0, None),
         Fault::ForNonList => (1, None),
